@@ -97,6 +97,11 @@ def _vid(key):
     return v
 
 
+def _fkey(fr):
+    return (rf._pkey(fr.n), fr.c, frozenset(fr.m.items()),
+            frozenset((rf._pkey(pp), ee) for pp, ee in fr.f.values()))
+
+
 def _frac_const(q):
     return rf.fconst(q.a.numerator, q.a.denominator, q.b.numerator, q.b.denominator)
 
@@ -127,7 +132,13 @@ def convert(root, expand=False):
                 else:
                     r = rf.fvar(_vid('v_' + n.val))
             elif op == 'fn':
-                r = rf.fvar(_vid(f'o_{n.id}'))
+                # one atom per (function, canonical form of the arguments): f(a*b/c) and f(a*(b/c)) are one object
+                try:
+                    k = (n.val, expand) + tuple(_fkey(cache[a.id]) for a in n.args)
+                    rep = core.CTX.__dict__.setdefault('_fn_rep', {}).setdefault(k, n.id)
+                except Exception:
+                    rep = n.id
+                r = rf.fvar(_vid(f'o_{rep}'))
             elif op == 'rpow':
                 r = _rpow_frac(n, cache[n.args[0].id])
             elif op == '+':
